@@ -231,7 +231,7 @@ def profile_cli18(rnd, n, thorough, out):
 
 # --------------------------------------------------------------------------------------- C16 / C17 / C19
 
-def file_text(path, kind, rnd, extra=True):
+def file_text(path, kind, rnd, extra=True, n_before=None):
     """a test file whose outcome against the fake engine is `kind`; every SQL line carries the
     marker ` -- F<path>` so that the monitor can attribute it"""
     m = f" -- F{path}"
@@ -248,7 +248,8 @@ def file_text(path, kind, rnd, extra=True):
         if c == 3:
             return f"control substitution on\n\nstatement ok\ndbname $__DATABASE__{m}\n\ncontrol substitution off\n"
         return f"statement error\nfail{m}\n"
-    n_before = rnd.randint(0, 3)
+    if n_before is None:
+        n_before = rnd.randint(0, 3)
     for _ in range(n_before):
         recs.append(ok_rec())
     if kind == "pass":
@@ -402,43 +403,84 @@ def profile_cli17(rnd, n, thorough, out):
         shutil.rmtree(cwd, ignore_errors=True)
 
 
+def traffic_files(r, files):
+    """files whose SQL (marker ` -- F<path>`) reached some engine process"""
+    seen = set()
+    for e in r.events:
+        if e["ev"] == "sql":
+            text = bytes.fromhex(e["args"][1]).decode("utf-8", "replace")
+            for f in files:
+                if text.endswith(" -- F" + f):
+                    seen.add(f)
+    return seen
+
+
 def profile_cli19(rnd, n, thorough, out):
     for si in range(n):
         cwd = fresh_dir(f"c19_{si}")
-        nfiles = rnd.randint(2, 5)
-        files, kinds = write_set(cwd, nfiles, rnd, ["pass"])
-        jobs = rnd.choice([0, 0, 2, 3, 4])
+        jobs = [0, 2, 0, 2, 3][si % 5]
+        nfiles = rnd.randint(3, 5) if jobs == 0 else rnd.randint(5, 6)
+        os.makedirs(os.path.join(cwd, "t"), exist_ok=True)
+        files = sorted(f"t/f{i:02d}.slt" for i in range(nfiles))
+        kinds = {f: "pass" for f in files}
+        for f in files:
+            open(os.path.join(cwd, f), "w").write(file_text(f, "pass", rnd, extra=False, n_before=rnd.randint(1, 2)))
         lat = 150
-        # uninterrupted run: number of requests
-        r0, tags0, ju0, evs0, _, _ = cli_run_set(cwd, files, kinds, jobs, False, False, rnd, latency=0)
+        # ---- Ctrl-C when the engine receives its k-th request, for every k of the uninterrupted run
+        r0, _, _, _, _, _ = cli_run_set(cwd, files, kinds, jobs, False, False, rnd, latency=0)
+        reqs = [e for e in r0.events if e["ev"] == "sql" and not re.match(r"(CREATE|DROP) DATABASE",
+                bytes.fromhex(e["args"][1]).decode("utf-8", "replace"))]
         nreq = len([e for e in r0.events if e["ev"] == "sql"])
         ks = list(range(1, nreq + 1))
-        if not thorough and len(ks) > 6:
-            ks = sorted(rnd.sample(ks, 6))
+        if not thorough and len(ks) > 5:
+            ks = sorted(rnd.sample(ks, 5))
         for k in ks:
             r, tags, ju, evs, cause, oracle = cli_run_set(cwd, files, kinds, jobs, False, False, rnd, sigint_at=k, latency=lat)
             tag = f"cli19 set={si} jobs={jobs} sigint_at={k}/{nreq}"
-            if oracle is None and r.exit == 0:
+            sig = any(e["ev"] == "sigint" for e in r.events)
+            if oracle is None and sig and r.exit == 0:
                 oracle = "exit status 0 although the run was interrupted by Ctrl-C"
             if oracle is None and ju is None:
                 oracle = "no JUnit report was written after Ctrl-C"
+            if oracle is None and sig and jobs == 0:
+                # serial: the file in flight is the owner of the k-th request; everything after it
+                # must be reported skipped and must not reach the engine at all
+                kth = [e for e in r.events if e["ev"] == "sql" and e["args"][0] == str(k)]
+                owner = None
+                if kth:
+                    text = bytes.fromhex(kth[0]["args"][1]).decode("utf-8", "replace")
+                    owner = next((f for f in files if text.endswith(" -- F" + f)), None)
+                if owner is not None:
+                    later = files[files.index(owner) + 1:]
+                    tr = traffic_files(r, files)
+                    bad = [f for f in later if f in tr or TAGMAP[tags.get(f, [None])[0]] != "skipped"]
+                    if bad:
+                        oracle = f"after Ctrl-C during {owner} these later files were not skipped without traffic: {bad}"
+                    t_owner = TAGMAP[tags.get(owner, [None])[0]]
+                    if oracle is None and t_owner not in ("cancelled", "ok"):
+                        oracle = f"the file in flight at Ctrl-C ({owner}) is reported {t_owner}"
             out.add(climon_case(jobs, False, r.exit, True, files, kinds, tags, ju, evs), "accept", tag,
                     ("C19|" + oracle) if oracle else None)
-        # fail-fast: the first failing file at every position; the others slow enough to be in flight
-        for pos in range(nfiles):
+        # ---- fail-fast: the failing file fails on its first request while the others are still busy
+        positions = range(nfiles) if jobs == 0 else range(min(jobs, nfiles))
+        for pos in positions:
             kinds2 = {f: ("fail" if i == pos else "pass") for i, f in enumerate(files)}
             for i, f in enumerate(files):
-                open(os.path.join(cwd, f), "w").write(file_text(f, kinds2[f], rnd, extra=False))
+                open(os.path.join(cwd, f), "w").write(
+                    file_text(f, kinds2[f], rnd, extra=False, n_before=(0 if i == pos else 2)))
             r, tags, ju, evs, cause, oracle = cli_run_set(cwd, files, kinds2, jobs, True, False, rnd, latency=(60 if jobs else 0))
             tag = f"cli19 set={si} jobs={jobs} failfast first-failure-at={pos}"
             if oracle is None and r.exit == 0:
                 oracle = "exit status 0 although a file failed"
-            # serial fail-fast is deterministic: nothing after the failing file may start
-            if oracle is None and jobs == 0:
-                started = [f for f in files if any(e["ev"] == "sql" and (" -- F" + f) in bytes.fromhex(e["args"][1]).decode("utf-8", "replace") for e in r.events)]
-                late = [f for f in started if files.index(f) > pos]
-                if late:
-                    oracle = f"files started after the first failure under --fail-fast: {late}"
+            if oracle is None and ju is None:
+                oracle = "no JUnit report was written"
+            if oracle is None:
+                # deterministic: serial -> every later file; parallel -> every file not among the first `jobs`
+                must_skip = files[pos + 1:] if jobs == 0 else files[jobs:]
+                tr = traffic_files(r, files)
+                bad = [f for f in must_skip if f in tr or TAGMAP[tags.get(f, [None])[0]] != "skipped"]
+                if bad:
+                    oracle = f"under --fail-fast these files were started after the first failure: {bad}"
             out.add(climon_case(jobs, False, r.exit, True, files, kinds2, tags, ju, evs), "accept", tag,
                     ("C19|" + oracle) if oracle else None)
         shutil.rmtree(cwd, ignore_errors=True)
